@@ -79,6 +79,19 @@ fn vk_rsi_matches_reference<const P: usize, const K: usize>() {
 }
 // @harness vk_rsi_matches_reference_p1 props=C03,C07,C08 kind=bounded(period=1,steps=3) tier=quick
 #[kani::proof] #[kani::unwind(6)] fn vk_rsi_matches_reference_p1() { vk_rsi_matches_reference::<1, 3>() }
+// (the full formula comparison at period 2 / 4 steps did not finish in 2400 s on the unchanged tree; the range-only variant does)
+// RSI stays in [0, 100] (public API only, no reference): period P, K positive prices
+fn vk_rsi_in_range<const P: usize, const K: usize>() {
+    let mut ind = RelativeStrengthIndex::new(P).unwrap();
+    let mut t = 0;
+    while t < K {
+        let out = ind.next(vk_pos2());
+        assert!(out >= 0.0 && out <= 100.0);
+        t += 1;
+    }
+}
+// @harness vk_rsi_in_range_p2 props=C07,C08 kind=bounded(period=2,steps=4) tier=thorough
+#[kani::proof] #[kani::unwind(7)] fn vk_rsi_in_range_p2() { vk_rsi_in_range::<2, 4>() }
 // @harness vk_rsi_matches_reference_p3 props=C03,C07,C08 kind=bounded(period=3,steps=3) tier=thorough
 #[kani::proof] #[kani::unwind(6)] fn vk_rsi_matches_reference_p3() { vk_rsi_matches_reference::<3, 3>() }
 '''
